@@ -24,20 +24,28 @@ CONSTANTS BLOCK,      \* plaintext bytes per encrypted frame (1024)
 
 CRLF == "\r\n"
 
+\* (balanced recursion: token sequences of deeply nested values are thousands of tokens long)
 RECURSIVE JoinStr(_, _)
 JoinStr(ss, sep) == IF Len(ss) = 0 THEN ""
                     ELSE IF Len(ss) = 1 THEN ss[1]
-                    ELSE ss[1] \o sep \o JoinStr(SubSeq(ss, 2, Len(ss)), sep)
+                    ELSE LET m == Len(ss) \div 2
+                         IN JoinStr(SubSeq(ss, 1, m), sep) \o sep \o JoinStr(SubSeq(ss, m + 1, Len(ss)), sep)
 Concat(ss) == JoinStr(ss, "")
 
 RECURSIVE FlatSeq(_)
-FlatSeq(ss) == IF Len(ss) = 0 THEN << >> ELSE ss[1] \o FlatSeq(SubSeq(ss, 2, Len(ss)))
+FlatSeq(ss) == IF Len(ss) = 0 THEN << >>
+               ELSE IF Len(ss) = 1 THEN ss[1]
+               ELSE LET m == Len(ss) \div 2
+                    IN FlatSeq(SubSeq(ss, 1, m)) \o FlatSeq(SubSeq(ss, m + 1, Len(ss)))
 RECURSIVE JoinTok(_, _)     \* sequences of tokens joined by a separator token
 JoinTok(ss, sep) == IF Len(ss) = 0 THEN << >>
-                       ELSE IF Len(ss) = 1 THEN ss[1]
-                       ELSE ss[1] \o <<sep>> \o JoinTok(SubSeq(ss, 2, Len(ss)), sep)
+                    ELSE IF Len(ss) = 1 THEN ss[1]
+                    ELSE LET m == Len(ss) \div 2
+                         IN JoinTok(SubSeq(ss, 1, m), sep) \o <<sep>> \o JoinTok(SubSeq(ss, m + 1, Len(ss)), sep)
 RECURSIVE SumSeq(_)
-SumSeq(s) == IF Len(s) = 0 THEN 0 ELSE s[1] + SumSeq(SubSeq(s, 2, Len(s)))
+SumSeq(s) == IF Len(s) = 0 THEN 0
+             ELSE IF Len(s) = 1 THEN s[1]
+             ELSE LET m == Len(s) \div 2 IN SumSeq(SubSeq(s, 1, m)) + SumSeq(SubSeq(s, m + 1, Len(s)))
 
 \* ------------------------------------------------------------------ JSON values and Compact
 \* tagged JSON universe; scalars carry their literal text, object keys their quoted text
